@@ -32,4 +32,10 @@ fail() { echo "HARNESS-ERROR: c09: $*" >&2; exit 2; }
   mv -f "$ov/vh-c09.new" /verif/bin/vh-c09 || exit 2
 ) 9>"$ov/.lock" || fail "generator or build failed"
 [ -n "${VERIF_BUILD_ONLY:-}" ] && exit 0
+if [ "$tier" = thorough ]; then
+  # supplementary, non-deciding: the same kind of thread bodies free-running under the race detector
+  if (cd /verif/harness && go build -race -tags verif -o /verif/bin/racepass ./cmd/racepass) 2>/dev/null; then
+    /verif/bin/racepass 20 2>&1 | tail -3 | sed 's/^/SUPPLEMENTARY (race pass, not a verdict): /'
+  fi
+fi
 exec /verif/bin/vh-c09 "$tier"
